@@ -21,6 +21,8 @@ Dist2(p, a, b) ==
   ELSE <<Sq(Cross(p, a, b)), l2>>
 \* dist(p, ab) < tolerance   (tolerance > 0)
 InTol(p, a, b, tn, td) == LET d == Dist2(p, a, b) IN d[1] * td < tn * d[2]
+\* some interior point lies EXACTLY at the tolerance distance (only possible for the exact tolerances)
+HasTie(pts, tn, td) == \E k \in 2..(Len(pts) - 1) : LET d == Dist2(pts[k], pts[1], pts[Len(pts)]) IN d[1] * td = tn * d[2]
 AllInTol(pts, tn, td) == \A k \in 2..(Len(pts) - 1) : InTol(pts[k], pts[1], pts[Len(pts)], tn, td)
 Untouched(n) == [k \in 1..n |-> k]
 \* the statement: `kept` (indices into vs) is what a correct simplifier may leave
